@@ -84,6 +84,7 @@ type Op struct {
 	N int `json:"n,omitempty"`
 	// face setters
 	Vars   []VarSetting `json:"vars,omitempty"`
+	Vars2  []VarSetting `json:"vars2,omitempty"` // train: N setters alternating between Vars and Vars2 (or Ppem and Ppem+1)
 	Coords []float32    `json:"coords,omitempty"`
 	Ppem   [2]uint16    `json:"ppem,omitempty"`
 	// face queries
@@ -497,7 +498,7 @@ func Main() {
 	run.Finish(vrun.Level{
 		Level: "exploration",
 		Rule: "histories of 5..40 operations on one object, five object kinds (shaper, face, segmenter, wrapper, uaxsegmenter); every result compared with the same call on a freshly constructed object, " +
-			"retained results re-compared after every later operation up to the documented invalidation point. " +
+			"retained results re-compared after every later operation up to the documented invalidation point; one face history in 16 holds a train of 254..257, 510..512 or 65534..65537 setters between two queries of the same glyphs (wrapping generation counters). " +
 			"non-trivial history = shaper: a font-cache hit or eviction happened (LRU model in the harness, measured); face: a query repeated after a setter; segmenter/wrapper/uaxsegmenter: the object served >= 2 different inputs. distinct by hash of the operation list",
 		Assumptions: []string{
 			"faces are mutated only by the harness between operations (never during one); histories are single-goroutine",
